@@ -1035,6 +1035,7 @@ func (c *Conn) handleBdat(arg string) {
 
 		go func() {
 			defer close(done)
+			verifBdatStart()
 			defer func() {
 				if err := recover(); err != nil {
 					c.handlePanic(err, status)
